@@ -24,6 +24,34 @@ func componentFuncs(p *Prog, typ string) []*ssa.Function {
 			out = append(out, fn)
 		}
 	}
+	// plain helper functions that are only ever called from the component (code extracted from its methods)
+	in := map[*ssa.Function]bool{}
+	for _, f := range out {
+		in[f] = true
+	}
+	for changed := true; changed; {
+		changed = false
+		for _, fn := range p.FuncsOfPkg("p9p") {
+			if in[fn] || fn.Parent() != nil || fn.Signature.Recv() != nil {
+				continue
+			}
+			sites, exact := p.staticCallSites(fn)
+			if !exact || len(sites) == 0 {
+				continue
+			}
+			all := true
+			for _, c := range sites {
+				if !in[c.Parent()] {
+					all = false
+				}
+			}
+			if all {
+				in[fn] = true
+				out = append(out, fn)
+				changed = true
+			}
+		}
+	}
 	return out
 }
 
